@@ -343,7 +343,7 @@ func c01CheckList(r *Run, l *Local, list []*uPat, public bool, extraProbes []*uP
 func TestVerif_C01(t *testing.T) {
 	r := newRun(t, "C01")
 	r.Rule("pattern lists over a universe built to collide in the radix tree (hosts sharing non-label-boundary suffixes, IPv4/IPv6, trailing dot, 253-byte hosts; 4 schemes; ports none/1/8080/65535/*; exact and *.): " +
-		"all ordered lists up to a bound (exhaustive) + PRNG lists of length 4-40 with permutations and duplications + PRNG sibling-heavy families (9-40 hosts differing in one byte in front of a common suffix, followed / interleaved / shuffled with patterns that split that node) + PRNG lists with `*` at every position (public API); probes = for every member the denoted origins and every near-miss class of the quantifier. " +
+		"all ordered lists up to a bound (exhaustive) + PRNG lists of length 4-40 with permutations and duplications + PRNG scheme families (2-8 patterns on one or two hosts under 20 schemes that are prefixes / extensions of one another or contain `+ - .` and digits) + PRNG sibling-heavy families (9-40 hosts differing in one byte in front of a common suffix, followed / interleaved / shuffled with patterns that split that node) + PRNG lists with `*` at every position (public API); probes = for every member the denoted origins and every near-miss class of the quantifier. " +
 		"evaluation = one (list, origin) verdict compared with the denotation oracle; non-trivial = verdicts on origins sharing scheme and a host suffix byte with a listed pattern, counted per distinct (list, origin) for enumerated lists (distinct by construction) and once per distinct list (by hash) for sampled lists")
 	r.Assume("oracle S1 (denotes) transcribes the statement of C01; universe patterns are valid by construction (their acceptance is C13's business)")
 
@@ -519,6 +519,43 @@ func TestVerif_C01(t *testing.T) {
 			}
 			l.NontrivialKey(strs...)
 			l.counters["sibling_family_lists"]++
+		}
+	})
+	// --- scheme families: one or two hosts under many schemes that are prefixes / extensions of one another or differ in
+	// bytes that sort before letters (`+`, `-`, `.`, digits) (lesson of seeded change C01-mm: scheme lookup by anything
+	// other than exact comparison)
+	c01SchemePool := []string{"http", "https", "ht", "httpss", "http+unix", "h2", "hello", "coap", "coaps", "coap+tcp", "web+app", "wss", "ws", "a", "a+b", "a.b", "a-b", "a0", "ab", "z39.50"}
+	nSch := pick(r, 400, 20000)
+	r.Parallel(famBatches, func(l *Local) {
+		rng := l.Rng
+		for i := 0; i < nSch/famBatches; i++ {
+			hosts := []string{choose(rng, []string{"example.com", "a.com", "kin", "example.com."})}
+			if rng.IntN(3) == 0 {
+				hosts = append(hosts, choose(rng, []string{"ample.com", "xample.com", "akin", "com"}))
+			}
+			n := 2 + rng.IntN(7)
+			var list []*uPat
+			for j := 0; j < n; j++ {
+				sp := PatSpec{Scheme: choose(rng, c01SchemePool), Host: choose(rng, hosts), Port: choose(rng, []int{portNone, portNone, 8080, portAny, 65535})}
+				if rng.IntN(4) == 0 && len(sp.Host) < 250 {
+					sp.Subs = true
+				}
+				if up, err := newUPat(sp); err == nil {
+					list = append(list, up)
+				} else {
+					l.counters["scheme_family_pattern_rejected"]++
+				}
+			}
+			if len(list) < 2 {
+				continue
+			}
+			c01CheckList(r, l, list, i%2 == 0, nil, false)
+			strs := make([]string, len(list))
+			for j := range list {
+				strs[j] = list[j].str
+			}
+			l.NontrivialKey(strs...)
+			l.counters["scheme_family_lists"]++
 		}
 	})
 	// --- lists that contain `*` (public API only: the tree never sees `*`): every origin is allowed,
